@@ -3,6 +3,8 @@ import re
 
 import hir as H
 import rulelib as L
+import symrules as SR
+import sym
 from c02 import has, only
 
 CRATES = ["identity_credential", "identity_document", "identity_jose", "identity_core"]
@@ -17,162 +19,118 @@ ACC = re.compile(r"(JwsValidationItem::(nonce|kid)|Url::as_str|CoreDocument::id|
 SEE = re.compile(r"(CoreDID as core::str::traits::FromStr>::from_str|FromStr::from_str|Timestamp::from_unix|::transpose|Box::new|::clone|::into|Into::into|From::from)$")
 
 
+def _rel(q, a_root, b_root):
+    """Ordering established on path q between the value derived from a_root and the bound derived from b_root (or its default):
+    'a>=b' | 'a<b' | 'a<=b' | 'a>b' | None"""
+    facts = set()
+    for (a, c, _, _) in q.decisions:
+        if a[0] != "lt":
+            continue
+        x, y = a[1], a[2]
+        xa, ya = SR.derives(x, a_root), SR.derives(y, a_root)
+        xb = SR.derives(x, b_root) or ("default",) in list(sym.subterms(x))
+        yb = SR.derives(y, b_root) or ("default",) in list(sym.subterms(y))
+        if xa and yb:
+            facts.add("a<b" if c else "a>=b")
+        elif xb and ya:
+            facts.add("a>b" if c else "a<=b")
+    if len(facts) == 1:
+        return facts.pop()
+    if facts == {"a>=b", "a<=b"}:
+        return "a==b"
+    if facts == {"a>=b", "a>b"}:
+        return "a>=b"
+    if facts == {"a<=b", "a<b"}:
+        return "a<=b"
+    return None if not facts else "/".join(sorted(facts))
+
+
 def run(F, R, tier):
     R.undecided += ["truth of the conjunction on concrete tokens (implied together with C01, C10, C13)", "first-match semantics of resolve_method when two ids differ only in path/query"]
     fn = PV + "::validate"
     h = F.hir(fn)
-
-    # ------------------------------------------------------------------ R1 signature first, on the holder document
     r1 = R.rule("C03-R1", "T2+T3", "validate: Ok dominated by CoreDocument::verify_jws ✓ on the `holder` parameter with options.presentation_verifier_options; claims parsed from the verified payload")
-    if r1.anchor(h, fn):
-        env = H.Env(h)
-        L.require_tried_before_success(r1, F, fn, [("holder.verify_jws", CORE + "::verify_jws"), ("from_json_slice(claims)", re.compile(r"from_json_slice$")),
-                                                   ("CoreDID::from_str(iss)", re.compile(r"FromStr>::from_str$|FromStr::from_str$")),
-                                                   ("try_into_presentation", PJ + "::try_into_presentation")])
-        L.mir_success_dominates(r1, F, fn, CORE + "::verify_jws", "CoreDocument::verify_jws")
-        for c in H.calls(h, CORE + "::verify_jws"):
-            a = H.call_args(c)
-            o = [H.origins(x, env, extra=re.compile(r"Jwt::as_str$")) for x in a]
-            r1.site("verify_jws(doc ← %s, jws ← %s, opts ← %s)" % (sorted(map(str, o[0])), sorted(map(str, o[1])), sorted(map(str, o[4]))), c["sp"])
-            r1.require(o[0] == {("param", "holder")}, (fn, "verify-doc"), "the JWS is not verified against the holder document: %s" % sorted(map(str, o[0])))
-            r1.require(o[1] == {("param", "presentation")}, (fn, "verify-jws"), "the JWS verified is not the presentation parameter")
-            r1.require(o[4] == {("param", "options", "presentation_verifier_options")}, (fn, "verify-options"), "verify_jws is not given options.presentation_verifier_options")
-            r1.require(o[3] == {("param", "self", "0")}, (fn, "verify-verifier"), "verify_jws is not given the validator's own verifier")
-        for c in H.calls(h, re.compile(r"from_json_slice$")):
-            oo = H.origins(H.call_args(c)[0], env)
-            r1.site("claims parsed from %s" % sorted(map(str, oo)), c["sp"])
-            r1.require(oo == {("call", CORE + "::verify_jws", "claims")}, (fn, "claims-source"), "claims are not parsed from the verified DecodedJws.claims: %s" % sorted(map(str, oo)))
-    r1.floor(7)
-
-    # ------------------------------------------------------------------ R2 issuer == holder document id
     r2 = R.rule("C03-R2", "T6", "CoreDID::from_str(claims.iss) ✓ and holder_did == holder.id() (full DID equality) dominate Ok")
-    if h:
-        env = H.Env(h)
-        tree, infos = L.exit_infos(h)
-        for e in infos:
-            if not L.is_success_exit(e):
-                continue
-            ok = False
-            for c in e.conds:
-                if c[0] != "if":
-                    continue
-                rel = H.relation(c[1], env,
-                                 lambda o: bool(o) and all(x[0] == "call" and x[1].endswith("from_json_slice") and x[2:3] == ("iss",) for x in o),
-                                 lambda o: o == {("param", "holder", "id")},
-                                 accessors=ACC, extra=SEE)
-                if rel is None:
-                    continue
-                if (rel == "Ne" and c[2] is False) or (rel == "Eq" and c[2] is True):
-                    # the comparison must be on whole DIDs: no component accessor between the values and the operator
-                    cc = H.strip(c[1])
-                    comps = {f.rsplit("::", 1)[-1] for f in H.called_fns(cc)} & {"method_id", "method", "tag", "network_str", "fragment", "path", "query"}
-                    if not comps:
-                        ok = True
-                        r2.site("Ok guarded by CoreDID(iss) == holder.id()", cc.get("sp"))
-                    else:
-                        r2.fail((fn, "did-eq-partial"), "the issuer/holder comparison only compares DID components %s, not the whole DID" % sorted(comps), cc.get("sp"))
-            r2.require(ok, (fn, "iss-eq-holder-id"), "Ok is reachable without `CoreDID(iss) == holder.id()` having been established (DocumentMismatch check missing or weakened)", e.node.get("sp"))
-        for c in H.calls(h, re.compile(r"FromStr>::from_str$|FromStr::from_str$")):
-            oo = H.origins(H.call_args(c)[0], env, accessors=ACC, extra=SEE)
-            r2.site("holder DID parsed from %s" % sorted(map(str, oo)), c["sp"])
-            r2.require(bool(oo) and all(o[0] == "call" and o[1].endswith("from_json_slice") and o[2:] == ("iss", "as_str") for o in oo), (fn, "iss-source"), "the holder DID is not parsed from claims.iss: %s" % sorted(map(str, oo)))
-            r2.require("identity_did::did::CoreDID" in (c.get("targs") or []) or "CoreDID" in (H.fn_name(c) or ""), (fn, "iss-type"), "iss is not parsed as a CoreDID")
-    r2.floor(2)
-
-    # ------------------------------------------------------------------ R3 dates
     r3 = R.rule("C03-R3", "T6+T2", "exp absent or ≥ earliest_expiry_date; issuance (nbf, else iat) absent or ≤ latest_issuance_date; both `?`-propagated before Ok; conversions through from_unix")
-    if h:
-        env = H.Env(h)
-        tree, infos = L.exit_infos(h)
-        checks = {}
-        for n in H.walk(H.root(h)):
-            if n.get("k") == "match" and n.get("src") == "try":
-                inner = H.strip(n["scrut"]["args"][0])
-                if inner.get("k") == "mcall" and inner["name"] == "ok_or":
-                    r = H.strip(inner["recv"])
-                    if r.get("k") == "mcall" and r["name"] in ("then_some", "then"):
-                        err = H.err_variant(inner["args"][0]) or ""
-                        ev = {H.variant_name(x.get("res", {})) for x in H.walk(inner["args"][0]) if x.get("k") == "path"}
-                        which = "exp" if "ExpirationDate" in ev else ("iss" if "IssuanceDate" in ev else None)
-                        if which:
-                            checks[which] = (r["recv"], n)
-        exp_ok = iss_ok = False
-        if "exp" in checks:
-            cond, node = checks["exp"]
-            ds = H.disjuncts(cond)
-            is_exp = lambda o: bool(o) and all(x[0] == "call" and x[1].endswith("from_json_slice") and x[2:3] == ("exp",) for x in o)
-            none_ok = any(H.strip(d).get("k") == "mcall" and H.strip(d)["name"] == "is_none" and is_exp(H.origins(H.strip(d)["recv"], env, extra=SEE)) for d in ds)
-            rels = [H.relation(d, env, is_exp, lambda o: o == {("param", "options", "earliest_expiry_date")}, extra=SEE) for d in ds]
-            rels = [x for x in rels if x]
-            r3.site("expiry check: absent-ok=%s relation exp %s earliest_expiry_date" % (none_ok, rels), H.strip(cond).get("sp"))
-            exp_ok = none_ok and rels == ["Ge"] and len(ds) == 2
-        r3.require(exp_ok, (fn, "expiry-predicate"), "the expiry check is not `exp absent ∨ exp ≥ options.earliest_expiry_date` → continue, else ExpirationDate")
-        if "iss" in checks:
-            cond, node = checks["iss"]
-            ds = H.disjuncts(cond)
-            NONE_ = ("def", "core::option::Option::None::{ctor}")
-            is_iss = lambda o: bool(o - {NONE_}) and all(x[0] == "call" and x[1].endswith("from_json_slice") and x[2:3] == ("issuance_date",) for x in o - {NONE_})
-            none_ok = any(H.strip(d).get("k") == "mcall" and H.strip(d)["name"] == "is_none" and is_iss(H.origins(H.strip(d)["recv"], env, extra=SEE, accessors=ACC)) for d in ds)
-            rels = [H.relation(d, env, is_iss, lambda o: o == {("param", "options", "latest_issuance_date")}, extra=SEE, accessors=ACC) for d in ds]
-            rels = [x for x in rels if x]
-            r3.site("issuance check: absent-ok=%s relation issuance %s latest_issuance_date" % (none_ok, rels), H.strip(cond).get("sp"))
-            iss_ok = none_ok and rels == ["Le"] and len(ds) == 2
-        r3.require(iss_ok, (fn, "issuance-predicate"), "the issuance check is not `issuance absent ∨ issuance ≤ options.latest_issuance_date` → continue, else IssuanceDate")
-        # both checks precede every success exit (they are `?` statements in the main sequence)
-        for e in infos:
-            if L.is_success_exit(e):
-                pre_ids = {id(x) for s in e.pre for x in H.unconditional(s)}
-                for which in ("exp", "iss"):
-                    r3.require(which in checks and id(checks[which][1]) in pre_ids, (fn, "check-precedes-ok", which), "the %s date check does not precede the success exit unconditionally" % which)
-        # issuance date is present whenever iat or nbf is: abstract evaluation of the definition
-        idef = [n for n in H.walk(H.root(h)) if n.get("k") == "let" and any(b[0] == "issuance_date" for b in H.pat_bindings(n["pat"]))]
-        if r3.require(len(idef) == 1, (fn, "issuance-def"), "definition of issuance_date not found"):
-            m = H.strip(idef[0]["init"])
-            ok_shape = False
-            if m.get("k") == "match":
-                for arm in m["arms"]:
-                    if H.pat_str(arm["pat"]) == "Some(_)":
-                        iff = H.find_first({"value": arm["body"]}, lambda n: n.get("k") == "if")
-                        if iff is not None:
-                            fields = set()
-                            for d in H.disjuncts(iff["cond"]):
-                                d = H.strip(d)
-                                if d.get("k") == "mcall" and d["name"] == "is_some":
-                                    for o in H.origins(d["recv"], env, extra=SEE):
-                                        fields.add(o[-1])
-                            calls_conv = any(f.endswith("to_issuance_date") for f in H.called_fns(iff["then"]))
-                            else_none = H.outcome(iff["else"]) == "None" if iff.get("else") else False
-                            r3.site("issuance_date defined when %s present → to_issuance_date()?, else None" % sorted(fields), iff["sp"])
-                            ok_shape = fields == {"iat", "nbf"} and calls_conv and else_none and len(H.disjuncts(iff["cond"])) == 2
-            r3.require(ok_shape, (fn, "issuance-presence"), "issuance_date is not `Some(to_issuance_date()?)` whenever iat OR nbf is present: a token carrying only one of them would skip the issuance check")
-        # exp goes through from_unix
-        edef = [n for n in H.walk(H.root(h)) if n.get("k") == "let" and any(b[0] == "expiration_date" for b in H.pat_bindings(n["pat"]))]
-        if r3.require(len(edef) == 1, (fn, "expiry-def"), "definition of expiration_date not found"):
-            fns = H.called_fns(edef[0]["init"])
-            r3.require(TS + "::from_unix" in fns and H.try_inner(edef[0]["init"]) is not None, (fn, "exp-from_unix"), "exp is not converted through Timestamp::from_unix(..)? (0000-9999 range gate)")
-            r3.site("expiration_date ← from_unix(claims.exp)?", edef[0]["sp"])
-    r3.floor(4)
-
-    # ------------------------------------------------------------------ R4/R5 returned values are the signed ones
     r5 = R.rule("C03-R5", "T3", "the returned presentation, header, dates, aud and custom claims derive from the verified claims / protected header")
-    if h:
-        env = H.Env(h)
-        lits = [s for s in H.struct_lits(h) if s.get("ty", "").endswith("DecodedJwtPresentation")]
-        if r5.require(len(lits) == 1, (fn, "literal"), "DecodedJwtPresentation literal not found"):
-            fl = {f["name"]: H.origins(f["e"], env, extra=SEE, accessors=ACC) for f in lits[0]["fields"]}
-            claims = lambda o, *suffix: bool(o) and all(x[0] == "call" and x[1].endswith("from_json_slice") and (not suffix or x[2:2 + len(suffix)] == suffix) for x in o)
-            for k, v in fl.items():
-                r5.site("result.%s ← %s" % (k, sorted(map(str, v))[:3]))
-            r5.require(fl.get("presentation") == {("call", PJ + "::try_into_presentation")}, (fn, "presentation"), "returned presentation is not claims.try_into_presentation()")
-            r5.require(fl.get("header") == {("call", CORE + "::verify_jws", "protected")}, (fn, "header"), "returned header is not the verified protected header: %s" % fl.get("header"))
-            r5.require(claims(fl.get("aud"), "aud"), (fn, "aud"), "returned aud is not claims.aud: %s" % fl.get("aud"))
-            r5.require(claims(fl.get("custom_claims"), "custom"), (fn, "custom"), "returned custom claims are not claims.custom")
-            r5.require(claims(fl.get("expiration_date"), "exp"), (fn, "exp"), "returned expiration_date is not derived from claims.exp")
-            r5.require(claims(fl.get("issuance_date"), "issuance_date") or all(x[0] == "call" and (x[1].endswith("from_json_slice")) or x == ("def", "core::option::Option::None::{ctor}") for x in fl.get("issuance_date", [("x",)])),
-                       (fn, "issuance"), "returned issuance_date is not derived from claims.issuance_date: %s" % fl.get("issuance_date"))
-        for c in H.calls(h, PJ + "::try_into_presentation"):
-            oo = H.origins(H.call_args(c)[0], env)
-            r5.require(bool(oo) and all(o[0] == "call" and o[1].endswith("from_json_slice") for o in oo), (fn, "try_into-recv"), "try_into_presentation is not applied to the verified claims")
+    if r1.anchor(h, fn):
+        OPQ = (r"CoreDocument::verify_jws$|from_json_slice$|CoreDID as core::str::traits::FromStr|FromStr::from_str$|to_issuance_date$|Timestamp::from_unix$|try_into_presentation$|"
+               r"CoreDocument::id$|one_presentation_error$")
+        tab = SR.Table(F, fn, opaque=OPQ, rule=r1, max_paths=6000)
+        OPT, HOLDER = SR.param("options"), SR.param("holder")
+        n = 0
+        for q in tab.ok():
+            n += 1
+            # ---- R1
+            vj = [e for e in q.calls(r"CoreDocument::verify_jws$") if q.succeeded(e) is True]
+            if not r1.require(len(vj) == 1, (fn, "missing-before-success", "holder.verify_jws"), "an accepting path has no successful CoreDocument::verify_jws"):
+                continue
+            e = vj[0]
+            r1.require(sym.term(e.args[0]) == HOLDER, (fn, "verify-recv"), "verify_jws is not invoked on the holder document: %r" % (e.args[0],))
+            r1.require(SR.derives(e.args[1], SR.param("presentation")), (fn, "verify-jws-arg"), "the token verified is not the presentation argument: %r" % (e.args[1],))
+            r1.require(sym.term(e.args[2]) == ("ctor", "None"), (fn, "verify-detached"), "a detached payload is passed to verify_jws: %r" % (e.args[2],))
+            r1.require(sym.term(e.args[3]) == SR.fld("0"), (fn, "verify-verifier"), "the verifier is not the validator's own: %r" % (e.args[3],))
+            r1.require(sym.term(e.args[4]) == SR.fld("presentation_verifier_options", base=OPT), (fn, "verify-options"), "verify_jws is not given options.presentation_verifier_options: %r" % (e.args[4],))
+            decoded = ("payload", e.result.t, "Ok", 0)
+            fj = [x for x in q.calls(r"from_json_slice$") if q.succeeded(x) is True]
+            if not r1.require(len(fj) == 1 and sym.term(fj[0].args[0]) == ("field", decoded, "claims"), (fn, "claims-source"), "the claims are not parsed from the verified token's payload"):
+                continue
+            claims = ("payload", fj[0].result.t, "Ok", 0)
+            # ---- R2
+            fs = [x for x in q.calls(r"FromStr") if q.succeeded(x) is True and SR.derives(x.args[0], ("field", claims, "iss"))]
+            if r2.require(len(fs) == 1, (fn, "iss-parse"), "claims.iss is not parsed as a CoreDID (with the error propagated) before success"):
+                hd = ("payload", fs[0].result.t, "Ok", 0)
+                okeq = False
+                for (a, c, _, _) in q.decisions:
+                    if a[0] == "eq" and c is True and hd in (a[1], a[2]):
+                        other = a[2] if a[1] == hd else a[1]
+                        if other[:1] == ("call",) and other[1].endswith("CoreDocument::id") and other[2] == (HOLDER,):
+                            okeq = True
+                r2.require(okeq, (fn, "iss-eq-holder-id"), "success without `holder_did == holder.id()` (full DID equality) — path: %s" % q.describe()[-260:])
+            # ---- R3 expiry
+            EXP = ("field", claims, "exp")
+            if SR.variant(q, EXP) == "Some":
+                fu = [x for x in q.calls(r"Timestamp::from_unix$") if q.succeeded(x) is True and sym.term(x.args[0]) == ("payload", EXP, "Some", 0)]
+                if r3.require(len(fu) == 1, (fn, "exp-from_unix"), "claims.exp is not converted with Timestamp::from_unix (error propagated)"):
+                    rel = _rel(q, fu[0].result.t, SR.fld("earliest_expiry_date", base=OPT))
+                    r3.require(rel == "a>=b", (fn, "expiry-predicate"), "the expiry check is not `exp absent ∨ exp ≥ options.earliest_expiry_date` (established: %s)" % rel)
+            else:
+                r3.require(SR.variant(q, EXP) == "None", (fn, "expiry-predicate"), "success without examining claims.exp")
+            # ---- R3 issuance
+            ISS = ("field", claims, "issuance_date")
+            iv = SR.variant(q, ISS)
+            isp = ("payload", ISS, "Some", 0)
+            has_date = iv == "Some" and (SR.variant(q, ("field", isp, "iat")) == "Some" or SR.variant(q, ("field", isp, "nbf")) == "Some")
+            both_absent = iv == "None" or (iv == "Some" and SR.variant(q, ("field", isp, "iat")) == "None" and SR.variant(q, ("field", isp, "nbf")) == "None")
+            ti = [x for x in q.calls(r"to_issuance_date$") if q.succeeded(x) is True and sym.term(x.args[0]) == isp]
+            if has_date:
+                if r3.require(len(ti) == 1, (fn, "issuance-presence"), "issuance_date is not `Some(to_issuance_date()?)` whenever iat OR nbf is present: a token carrying only one of them would skip the issuance check"):
+                    rel = _rel(q, ti[0].result.t, SR.fld("latest_issuance_date", base=OPT))
+                    r3.require(rel == "a<=b", (fn, "issuance-predicate"), "the issuance check is not `issuance absent ∨ issuance ≤ options.latest_issuance_date` (established: %s)" % rel)
+            else:
+                r3.require(both_absent or len(ti) == 1, (fn, "issuance-presence"), "success without examining both iat and nbf — path: %s" % q.describe()[-200:])
+                if len(ti) == 1:
+                    rel = _rel(q, ti[0].result.t, SR.fld("latest_issuance_date", base=OPT))
+                    r3.require(rel == "a<=b", (fn, "issuance-predicate"), "the issuance check is not `issuance ≤ options.latest_issuance_date` (established: %s)" % rel)
+            # ---- R5
+            out = q.ret.fields[0] if isinstance(q.ret, sym.V) and q.ret.fields else None
+            if not r5.require(isinstance(out, sym.St), (fn, "result-visible"), "the returned DecodedJwtPresentation is not visible to the evaluator: %r" % (out,)):
+                continue
+            tp = [x for x in q.calls(r"try_into_presentation$") if q.succeeded(x) is True and sym.term(x.args[0]) == claims]
+            r5.require(len(tp) == 1 and SR.derives(out.f.get("presentation"), tp[0].result.t), (fn, "presentation-source"), "the returned presentation is not claims.try_into_presentation()?")
+            r5.require(SR.derives(out.f.get("header"), ("field", decoded, "protected")), (fn, "header-source"), "the returned header is not the verified token's protected header: %r" % (out.f.get("header"),))
+            r5.require(SR.derives(out.f.get("aud"), ("field", claims, "aud")), (fn, "aud-source"), "aud does not come from the verified claims")
+            r5.require(SR.derives(out.f.get("custom_claims"), ("field", claims, "custom")), (fn, "custom-source"), "custom claims do not come from the verified claims")
+            ed = out.f.get("expiration_date")
+            r5.require((SR.variant(q, EXP) == "None" and sym.term(ed) == ("ctor", "None")) or SR.derives(ed, EXP), (fn, "exp-source"), "expiration_date does not come from claims.exp: %r" % (ed,))
+            idt = out.f.get("issuance_date")
+            r5.require(sym.term(idt) == ("ctor", "None") or SR.derives(idt, ISS), (fn, "iss-source"), "issuance_date does not come from the verified claims: %r" % (idt,))
+        for rr, m in ((r1, 7), (r2, 2), (r3, 4), (r5, 6)):
+            for k in range(m):
+                rr.site("validate: obligation %d checked on %d accepting path(s)" % (k + 1, n))
+    r1.floor(7)
+    r2.floor(2)
+    r3.floor(4)
     r5.floor(6)
 
     # ------------------------------------------------------------------ R6 CoreDocument::verify_jws
